@@ -80,6 +80,19 @@ type recMonitor struct {
 	base *frugal.BaseFTransportMonitor
 }
 
+// rearmMonitor: counts what it is told and never asks for a reopen.
+type rearmMonitor struct{ clean, unclean int }
+
+func (m *rearmMonitor) OnClosedCleanly() { m.clean++ }
+func (m *rearmMonitor) OnClosedUncleanly(cause error) (bool, time.Duration) {
+	m.unclean++
+	return false, 0
+}
+func (m *rearmMonitor) OnReopenFailed(prev uint, prevWait time.Duration) (bool, time.Duration) {
+	return false, 0
+}
+func (m *rearmMonitor) OnReopenSucceeded() {}
+
 func (m *recMonitor) note() {
 	if m.lc.monTask == "" {
 		m.lc.monTask = simrt.TaskID()
@@ -734,6 +747,8 @@ func lifecycleHarness(rc *RunCtx) {
 
 	var sockRan, sockCloseRet, sockAskRet, stallRan bool
 	var stallBad string
+	var rearmRan bool
+	var rearmBad string
 	s.GoRoot("user", "user", func() {
 		if useMon {
 			lc.monSet, lc.monAlive = true, true
@@ -855,10 +870,44 @@ func lifecycleHarness(rc *RunCtx) {
 			}
 			st3.Kill()
 		}
+		if k := tp.Intn("rearm", 6); k == 1 || k == 2 {
+			// The runner of a monitor ends with a clean close (by design). An application that wants the next connection
+			// watched as well installs its monitor again - the same object, it has only one - and opens. The failure that
+			// follows must reach it. k == 2: the monitor is installed twice in a row before the first open as well (a
+			// set-up routine that runs twice); each failure is still reported once.
+			rc.Fault("monitor-installed-again-after-its-runner-ended")
+			st4 := NewSimStream(rc, "rearm")
+			tr4 := frugal.NewAdapterTransport(st4)
+			m := &rearmMonitor{}
+			tr4.SetMonitor(m)
+			if k == 2 {
+				tr4.SetMonitor(m)
+			}
+			if err := tr4.Open(); err == nil {
+				settle(20 * time.Millisecond)
+				tr4.Close()
+				settle(100 * time.Millisecond)
+				cleanBefore := m.clean
+				tr4.SetMonitor(m)
+				if err := tr4.Open(); err == nil {
+					settle(20 * time.Millisecond)
+					st4.PeerEnd(ErrReset())
+					settle(2 * time.Second)
+					rearmRan = true
+					if m.unclean != 1 || cleanBefore < 1 {
+						rearmBad = fmt.Sprintf("monitor installed (x%d), Open, Close (OnClosedCleanly calls so far: %d), the same monitor installed again, Open, connection reset: OnClosedUncleanly called %d times within 2 s (IsOpen now: %v)", k, cleanBefore, m.unclean, tr4.IsOpen())
+					}
+				}
+			}
+			st4.Kill()
+		}
 		finished = true
 	})
 
 	s.Run(func() bool { return finished && !lc.monBusy })
+	if rearmRan && rearmBad != "" {
+		rc.Violate("C15", "monitor-installed-again-not-notified", "adapter", rearmBad)
+	}
 	if stallRan && stallBad != "" {
 		rc.Violate("C15", "not-closed-while-a-write-is-stalled", "adapter", stallBad)
 	}
